@@ -10,6 +10,8 @@ import json, os, subprocess, sys, shutil, time, glob
 
 ROOT = os.path.dirname(os.path.dirname(os.path.abspath(__file__)))
 SEEDED = os.path.join(ROOT, "seeded")
+VERIF = ROOT
+REPO = "/repo"
 NEXTEST = "cargo nextest run --workspace --no-fail-fast --tool-config-file pb:/w/lib/nextest.toml --profile pb --test-threads 8 --offline"
 
 
@@ -100,6 +102,72 @@ def run(sid, props, tier="quick"):
     json.dump(meta, open(os.path.join(d, "meta.json"), "w"), indent=1)
     return 0
 
+
+
+PROMPT_HEAD = """You are helping to evaluate a verification tool by producing ONE realistic, subtle, property-breaking change ("seeded bug") to the Rust repository dalek-cryptography/curve25519-dalek (workspace with crates curve25519-dalek, ed25519-dalek, x25519-dalek).
+
+Your private scratch git worktree of the repository is at: {wt}
+Write your deliverables to: {out}
+Work ONLY inside those two directories. Never touch /repo or /verif (do not read /verif either). Use CARGO_TARGET_DIR={wt}/target for all cargo commands, and always pass --offline (there is no network).
+
+The semantic property you must break:
+
+{prop}
+{extra}
+Task:
+1. Read the relevant code in the worktree (the files listed above and whatever else you need). Ignore `src/verif.rs` and anything under `#[cfg(curve25519_dalek_verif)]` - that is test scaffolding, do not modify or rely on it.
+2. Make a SMALL source change (a few lines, in non-test code of the crates) that makes the property FALSE, but that is subtle: it must need something specific to manifest - an unusual / corner-case input, a particular multi-step sequence of operations, a specific configuration (backend cfg such as `--cfg curve25519_dalek_backend="serial"` or `curve25519_dalek_bits="32"`, a cargo feature, table on/off), or two cooperating sites that each look fine alone. Do NOT make a change that ordinary use would expose at once (e.g. breaking every multiplication). Prefer changes resembling real bugs: off-by-one in a loop bound or window, wrong constant limb, missing carry/reduction, swapped threshold, dropped validity check on a rare path, wrong mask, mishandled edge value (0, p, l, 2^255-1, identity, torsion points, empty input, lengths at a boundary).
+3. The change MUST still compile and MUST still pass the repository's existing test suite. Verify this by running, in the worktree:
+   cd {wt} && CARGO_TARGET_DIR={wt}/target cargo nextest run --workspace --no-fail-fast --tool-config-file pb:/w/lib/nextest.toml --profile pb --test-threads 8 --offline
+   (138 tests must pass; if your change makes any fail, pick a different change.) Do not edit or delete existing tests.
+4. Write a demonstration: a small Rust test file (an integration test placed under the relevant crate's `tests/` directory, e.g. {wt}/curve25519-dalek/tests/seeded_demo.rs, using only the public API; if a non-default cfg/feature is needed say exactly which RUSTFLAGS/--features) that FAILS with your change and PASSES without it. Verify both directions yourself (use `git diff > patch; git checkout -- <files>; ...; git apply patch`). The demo file itself must not be part of the patch.
+5. Deliverables in {out}:
+   - patch.diff : `git diff` of ONLY the source change (not the demo), applicable with `git apply` at the repository root.
+   - the demo test file (copy), plus demo_cmd.txt with the exact command line to run it from the repository root (including RUSTFLAGS / features / toolchain if needed).
+   - meta.json : {{"property": "{pid}", "summary": "...what you changed...", "needs_to_manifest": "...the specific input/sequence/configuration...", "files_changed": [...], "tests_still_pass": true, "demo_fails_with_change": true, "demo_passes_without_change": true}}
+6. Leave the worktree with the change REVERTED (clean `git status` except untracked demo), and finish with a short report: what you changed, what it needs to manifest, and the commands you ran.
+
+Be efficient: one good seeded bug is enough. Do not produce more than one.
+"""
+
+KINDS = ("This time prefer a bug of one of these kinds: (a) TWO cooperating sites that each look fine alone (e.g. a helper whose contract is slightly widened plus a caller that now relies on the old contract); "
+         "(b) a bug that needs a MULTI-STEP sequence of public operations to manifest (state produced by one operation and mis-handled by a later one: unreduced internal representations, a particular projective representation, a table built from a special point, an object cloned/converted and then used); "
+         "(c) a bug confined to one configuration that the default test run never executes (a cargo feature off/on, 32-bit limbs, fiat backend, serial fallback inside a simd build, AVX-512 IFMA with `cargo +nightly` and RUSTFLAGS='--cfg curve25519_dalek_backend=\"unstable_avx512\"'). Be creative and look at code paths the earlier changes did not touch.\n")
+
+
+def prompt(sid):
+    """Create the scratch worktree for seed `sid` and print the sub-agent prompt (property text only + what earlier
+    seeds of the same property did, so that rounds do not repeat)."""
+    pid = sid[:3]
+    props = {}
+    for line in open(os.path.join(VERIF, "properties.jsonl")):
+        d = json.loads(line)
+        props[d["id"]] = d
+    d = props[pid]
+    files = d["anchors"]["files"]
+    text = "Property %s: %s\n\nStatement: %s\n\nQuantified over: %s\n\nAnchored in files: %s\n" % (
+        pid, d["title"], d["statement"], d["quantifier"]["text"], ", ".join(sorted(set(f for f in files if f))))
+    earlier = []
+    sd = os.path.join(VERIF, "seeded")
+    for e in sorted(os.listdir(sd)):
+        mp = os.path.join(sd, e, "meta.json")
+        if e.startswith(pid) and os.path.exists(mp):
+            earlier.append("  - " + json.load(open(mp)).get("summary", "")[:400])
+    extra = ""
+    if earlier:
+        extra = ("\nAdditional constraints: earlier experiments already made the following changes for this property; do NOT repeat them or close variants (same function, same line):\n"
+                 + "\n".join(earlier) + "\n" + KINDS + "\n")
+    wt, out = "/tmp/seed/" + sid, "/tmp/seed/" + sid + "-out"
+    os.makedirs(out, exist_ok=True)
+    if not os.path.exists(wt):
+        subprocess.run(["git", "-C", REPO, "worktree", "add", "--detach", wt], check=True, stdout=subprocess.DEVNULL, stderr=subprocess.DEVNULL)
+    txt = PROMPT_HEAD.format(wt=wt, out=out, prop=text, extra=extra, pid=pid)
+    open("/tmp/seed/prompt_%s.txt" % sid, "w").write(txt)
+    print(txt)
+
+if __name__ == "__main__" and sys.argv[1] == "prompt":
+    prompt(sys.argv[2])
+    sys.exit(0)
 
 if __name__ == "__main__" and sys.argv[1] != "summary":
     if sys.argv[1] == "verify":
